@@ -7,8 +7,12 @@ claim('C16', 'Proof over symbolic metric names, allow-list patterns and values t
       'the statement, that every key export() hands to the lineage backend stems from an allowed metric (none with an empty allow-list), that histograms '
       'have len(counts) == len(buckets)+1 with numeric fields on pad and truncate paths, and that read_allowlist() defaults to the empty set. '
       'Shape-bounded: up to 2 metrics per call, allow-lists of 0..2 (3 thorough) entries. Wiring in client.py is a syntactic anchor.', '6-C16')
+claim('C10', 'Proof by inductive object invariant on the real Frame class (abstract buffer/pixel model): from EVERY frame state satisfying FrameInv '
+      '(no image / jpg-only / raw writable or read-only, cached jpg, cached ro views, GRAY/BGR/RGB) each accessor and copy() returns the documented view of the '
+      'CURRENT pixels, fresh copies share no memory, no array is made writable in place, and FrameInv (cached JPEG / cached views only for immutable pixels) '
+      'is re-established, also after the user writes through every writable image; hence for operation sequences of every length.', '6-C10')
 _todo = 'check not built yet in this session (planned, see DESIGN.md section 6); not claimed until its obligations are discharged'
-for _p in ('C01', 'C02', 'C03', 'C04', 'C05', 'C07', 'C08', 'C09', 'C10', 'C11', 'C12', 'C13', 'C14', 'C15', 'C18'):
+for _p in ('C01', 'C02', 'C03', 'C04', 'C05', 'C07', 'C08', 'C09', 'C11', 'C12', 'C13', 'C14', 'C15', 'C18'):
     NA[_p] = _todo
 NA['C06'] = ('liveness under fairness and bounded-time recovery across several processes: not expressible as pre/postconditions or invariants of one call; '
              'termination is not proved by this verifier (DESIGN.md section 7); its safety ingredients are proved under C02/C04/C05')
